@@ -1443,7 +1443,8 @@ type VindexParam struct {
 
 // Format formats the node.
 func (node VindexParam) Format(buf *TrackedBuffer) {
-	buf.Myprintf("%s=%s", node.Key.String(), node.Val)
+	buf.Myprintf("%s=", node.Key.String())
+	formatID(buf, node.Val, strings.ToLower(node.Val))
 }
 
 func (node VindexParam) walkSubtree(visit Visit) error {
@@ -1467,7 +1468,9 @@ type ConstraintInfo interface {
 // Format formats the node.
 func (c *ConstraintDefinition) Format(buf *TrackedBuffer) {
 	if c.Name != "" {
-		buf.Myprintf("constraint %s ", c.Name)
+		buf.Myprintf("constraint ")
+		formatID(buf, c.Name, strings.ToLower(c.Name))
+		buf.Myprintf(" ")
 	}
 	c.Details.Format(buf)
 }
@@ -1618,7 +1621,8 @@ func (node *ShowFilter) Format(buf *TrackedBuffer) {
 		return
 	}
 	if node.Like != "" {
-		buf.Myprintf(" like '%s'", node.Like)
+		buf.Myprintf(" like ")
+		encodeStringLiteral(buf, []byte(node.Like))
 	} else {
 		buf.Myprintf(" where %v", node.Filter)
 	}
@@ -3125,7 +3129,8 @@ type IntervalExpr struct {
 
 // Format formats the node.
 func (node *IntervalExpr) Format(buf *TrackedBuffer) {
-	buf.Myprintf("interval %v %s", node.Expr, node.Unit)
+	buf.Myprintf("interval %v ", node.Expr)
+	formatID(buf, node.Unit, strings.ToLower(node.Unit))
 }
 
 func (node *IntervalExpr) walkSubtree(visit Visit) error {
@@ -3152,7 +3157,9 @@ type TimestampFuncExpr struct {
 
 // Format formats the node.
 func (node *TimestampFuncExpr) Format(buf *TrackedBuffer) {
-	buf.Myprintf("%s(%s, %v, %v)", node.Name, node.Unit, node.Expr1, node.Expr2)
+	buf.Myprintf("%s(", node.Name)
+	formatID(buf, node.Unit, strings.ToLower(node.Unit))
+	buf.Myprintf(", %v, %v)", node.Expr1, node.Expr2)
 }
 
 func (node *TimestampFuncExpr) walkSubtree(visit Visit) error {
@@ -3210,7 +3217,8 @@ type CollateExpr struct {
 
 // Format formats the node.
 func (node *CollateExpr) Format(buf *TrackedBuffer) {
-	buf.Myprintf("%v collate %s", node.Expr, node.Charset)
+	buf.Myprintf("%v collate ", node.Expr)
+	formatID(buf, node.Charset, strings.ToLower(node.Charset))
 }
 
 func (node *CollateExpr) walkSubtree(visit Visit) error {
@@ -3445,7 +3453,9 @@ type ConvertUsingExpr struct {
 
 // Format formats the node.
 func (node *ConvertUsingExpr) Format(buf *TrackedBuffer) {
-	buf.Myprintf("convert(%v using %s)", node.Expr, node.Type)
+	buf.Myprintf("convert(%v using ", node.Expr)
+	formatID(buf, node.Type, strings.ToLower(node.Type))
+	buf.Myprintf(")")
 }
 
 func (node *ConvertUsingExpr) walkSubtree(visit Visit) error {
@@ -3617,7 +3627,9 @@ type Default struct {
 func (node *Default) Format(buf *TrackedBuffer) {
 	buf.Myprintf("default")
 	if node.ColName != "" {
-		buf.Myprintf("(%s)", node.ColName)
+		buf.Myprintf("(")
+		formatID(buf, node.ColName, strings.ToLower(node.ColName))
+		buf.Myprintf(")")
 	}
 }
 
